@@ -90,6 +90,9 @@ CHECKS["C04"] = Spec(
     prop_file="C04.v",
     weights=dict(put=34, get=10, has=2, size=2, remove=14, flush=12, igc=8, pgc=12, reopen=2, iter=1),
     gen_kw=dict(sweep_p=0.7, pmax_choices=(1, 60, 100, 100, 300, 300), imax_choices=(1, 40, 100, 300)),
+    # index-GC heavy variant: many buckets, one flush per write or two, several records per index file, repeated cycles
+    variants=[(0.35, dict(weights=dict(put=30, remove=8, flush=30, igc=22, get=6, pgc=3, reopen=2),
+                          gen_kw=dict(sweep_p=0.5, imax_choices=(64, 100, 150, 200), pmax_choices=(300, 1 << 30), first=(3, 4, 5, 6, 7, 8), nops=(30, 80))))],
     keep=("res", "tbl", "img"),
     witnesses=["F3-relocate-two-records", "F4-freelist-entry-for-unflushed-block", "F5-freelist-entry-in-missing-file",
                "F11-stale-record-relocated-after-crash", "F16-relocation-vs-writer"],
@@ -107,6 +110,82 @@ CHECKS["C09"] = Spec(
     nontrivial=lambda t, r: _count_ops(t, ("rebits",)) >= 1 and _count_ops(t, ("put",)) >= 3,
     rule=_KEYS_RULE.replace("{8,9,12,16}", "{8,9,12,15,16,17}") + "Close + reopen with another bit size at random positions, opens with a different index / primary file-size "
          "limit (must be refused with the specific error, then the original settings must work); non-trivial = >= 1 re-bucketing and >= 3 puts",
+)
+CHECKS["C08"] = Spec(
+    prop_file="C08.v",
+    weights=dict(put=44, get=12, has=2, remove=16, flush=18, reopen=2, igc=1),
+    gen_kw=dict(bits_choices=(8, 9, 12, 16), imax_choices=(100, 300, 1 << 30), pmax_choices=(300, 1 << 30), imm_p=0.1,
+                nkeys=(6, 14), lens=(6, 7, 8), equal_len=True, one_bucket=True, nops=(25, 80)),
+    variants=[(0.3, dict(gen_kw=dict(one_bucket=False)))],
+    keep=("res", "tbl", "img"),
+    aspects=("map", "rl", "idx"),
+    nontrivial=lambda t, r: _count_ops(t, ("put",)) >= 6 and _count_ops(t, ("remove",)) >= 1 and _count_ops(t, ("flush",)) >= 2,
+    rule="histories over 6-14 EQUAL-LENGTH multihash keys (digest 6-8 bytes over a 2-letter alphabet) that all fall in one bucket and share long prefixes "
+         "(30 %: spread over a few buckets), inserted, overwritten (re-pointed) and removed in random order with flushes in between; after every flush the record "
+         "list of every bucket is decoded from the real index file and checked (sorted, prefix-free, each stored prefix a prefix of its own key read from the "
+         "primary, distinct live locations, right bucket tag); the index files are also compared byte for byte with the model; "
+         "non-trivial = >= 6 puts, >= 1 removal, >= 2 flushes",
+)
+def _crash_enum(ctx):
+    """Kill-injection enumeration (vlib/crash.py) over a few histories; every kill point and torn-write variant is recovered
+    by the real code and judged by crashdrive recover."""
+    from . import crash
+    prop, tier, wd, rng = ctx["prop"], ctx["tier"], ctx["wd"], ctx["rng"]
+    C.go_build(["crashdrive"])
+    nh, maxp = (5, 40) if tier == "quick" else (60, None)
+    hists = []
+    cdir = os.path.join(C.VERIF, "corpus", prop)
+    if os.path.isdir(cdir):
+        for fn in sorted(os.listdir(cdir)):
+            if fn.endswith(".crashhist"):
+                hists.append(os.path.join(cdir, fn))
+    if ctx.get("replay") and ctx["replay"].endswith(".crashhist"):
+        hists, nh = [ctx["replay"]], 0
+    cw = os.path.join(wd, "crashenum"); os.makedirs(cw, exist_ok=True)
+    for i in range(nh):
+        t = gen.history(rng, dict(put=36, remove=12, flush=16, pgc=9, igc=7, reopen=5, get=2, has=0, size=0),
+                        nops=(14, 34), imm_p=0.1, imax_choices=(1, 40, 100, 300), pmax_choices=(1, 60, 100, 300), bits_choices=(8, 9, 12), nkeys=(4, 8))
+        p = os.path.join(cw, "g%03d.crashhist" % i)
+        open(p, "w").write(t)
+        hists.append(p)
+    viol, points, torn, calls = [], 0, 0, 0
+    samples = []
+    for hp in hists:
+        n, nt, fails, nc = crash.enumerate_history(hp, cw, rng, max_points=maxp)
+        points += n; torn += nt; calls += nc
+        if len(samples) < 2:
+            samples.append({"crash_history": open(hp).read().strip().split("\n")[:14], "kill_points": n, "torn_variants": nt})
+        for f in fails[:2]:
+            txt = open(hp).read()
+            rp = C.save_replay(prop, "crash-%s.crashhist" % hashlib.sha1((txt + f["what"]).encode()).hexdigest()[:10],
+                               "# C03 fails on the implementation: %s\n# crash point: %s\n# directory image left by the crash: %s (acknowledged ops: %s)\n"
+                               "# replay: cd /verif && ./check C03 --replay <this file>   (re-enumerates every crash point of this history)\n%s"
+                               % (f["bad"], f["what"], f["image"], f["ack"], txt))
+            viol.append(("crash enumeration: %s [%s]" % (f["bad"], f["what"]), rp, True))
+        if viol:
+            break
+    return viol, {"evaluations": points + torn, "crash_points": points, "torn_write_variants": torn, "file_system_calls_traced": calls,
+                  "crash_histories": len(hists), "samples": samples,
+                  "crash_rule": "each history runs in a child under strace; SIGKILL is delivered on entering the K-th file-system call for every K whose "
+                                "predecessor changed the store directory (quick: a sample of 40 per history); when the killed call is a write/pwrite64 its data is "
+                                "applied as a proper prefix (1,2,3,4,5,8,n/2,n-1 bytes); the real code recovers each image: open succeeds, every key reads a durable "
+                                "or since-acknowledged value, and the store behaves like a map through 2 GC cycles, a flush, a second un-clean restart and a clean reopen"}
+
+CHECKS["C03"] = Spec(
+    prop_file="C03.v",
+    weights=dict(put=36, get=6, remove=14, flush=6, crash=12, pgc=6, igc=5, reopen=4),
+    gen_kw=dict(imax_choices=(1, 40, 100, 300), pmax_choices=(1, 60, 100, 300), imm_p=0.15),
+    keep=("res", "crash"),
+    aspects=("map", "crash"),
+    quick_n=120, thorough_n=3000,
+    witnesses=["F8-close-writes-index-before-primary", "F11-stale-record-relocated-after-crash", "F12-gc-before-flush-then-crash",
+               "F12b-writer-inside-commit-then-crash", "F13-torn-index-size-prefix", "F19-torn-freelist-entry"],
+    tools=["sthdrive", "witness", "crashdrive"],
+    nontrivial=lambda t, r: any("crash_keep" in (x.get("extra") or {}) and 0 < (x["extra"]["crash_of"]) for x in r),
+    rule=_KEYS_RULE + "record-granular crash cuts: before a Flush the harness fixes a cut (N mod records+1), builds the directory image a crash after that many "
+         "index records of the flush would leave (primary complete, freelist not yet written, no snapshot), recovers it with the real code and reads every key; "
+         "the model evaluates recover(flush_cut s done) on the same cut; non-trivial = a cut inside a flush that appended >= 1 index record",
+    extra=_crash_enum,
 )
 CHECKS["C13"] = Spec(
     prop_file="C13.v",
@@ -198,6 +277,16 @@ def eval_oracle(hist_text, recs, aspects=("map",)):
         bad = o.expect(r)
         if bad:
             return (r["i"], bad)
+        rl = (r.get("extra") or {}).get("rl_check")
+        if rl and "rl" in aspects:
+            return (r["i"], "C08/C07 on the real index bytes: " + rl)
+        if "idx" in aspects and r["op"] in ("put", "remove") and r["res"] == "ROk":
+            # the index resolves the key to exactly the location most recently associated with it
+            ex = r.get("extra") or {}
+            if r["op"] == "put" and ex.get("blk_after") == "":
+                return (r["i"], "C08: after Put the index does not resolve the key to a location holding it")
+            if r["op"] == "remove" and r.get("found") and ex.get("blk_after") != "":
+                return (r["i"], "C08: after Remove the index still resolves the key to %s" % ex.get("blk_after"))
         d = (r.get("extra") or {}).get("dir")
         if d and "dir" in aspects:
             bad = oracles.dir_invariants(d, quiescent=(r["op"] == "flush" and r["res"] == "ROk" and (r.get("extra") or {}).get("pools_empty") is True and "crash_keep" not in (r.get("extra") or {})))
@@ -394,6 +483,10 @@ def run_check(prop, tier, seed, replay, t0):
                                "# no history on which the property's own oracle fails was found among %d further histories\n%s"
                                % (mm, len(bad_corr), len(results), spec.prop_file, len(extra), small))
             violations.append(("correspondence: model and implementation disagree on %d of %d histories" % (len(bad_corr), len(results)), rp, False))
+    extra_cov = {}
+    if getattr(spec, "extra", None):
+        ev, extra_cov = spec.extra(dict(prop=prop, tier=tier, seed=seed, wd=wd, rng=rng, spec=spec, replay=replay))
+        violations += ev
     if broken_obligations and not violations:
         rp = C.save_replay(prop, "obligation.txt", "broken proof obligation(s) for %s:\n%s\n" % (prop, "\n".join(broken_obligations)))
         violations.append(("proof obligation broken: " + broken_obligations[0][:200], rp, False))
@@ -405,6 +498,10 @@ def run_check(prop, tier, seed, replay, t0):
                correspondence_mismatches=len(bad_corr), oracle_failures=len(bad_oracle), corpus_histories=ncorpus,
                op_histogram=dict(opcount), put_value_length_histogram={str(k): v for k, v in sorted(vlens.items())},
                non_ok_results=dict(errs), observations_compared=list(spec.keep), coq_replay_s=round(coq_s, 1))
+    if extra_cov:
+        cov["evaluations"] += extra_cov.pop("evaluations", 0)
+        cov["samples"] += extra_cov.pop("samples", [])
+        cov.update(extra_cov)
     C.write_evidence(prop, tier, seed, cov, time.time() - t0, len(violations),
                      ["the correspondence is differential testing: its strength is bounded by the generators (distribution above)",
                       "the model covers the multihash primary with one-byte varints; see DESIGN.md section 3.4 for what is modelled"])
